@@ -552,6 +552,22 @@ def rule_range_exact(rep: Report, repo: Repo) -> None:
     im = _reader_init_memory(repo)
     grid('Reader:segment-end', _refusals_about(im, {'segment_start', 'segment_length'}), [{'segment_start': a, 'segment_length': b} for a, b in pts if a >= 0],
          lambda e: e['segment_start'] + e['segment_length'] >= B, f'{R}:{im.lineno} Reader._init_memory')
+    # ... and at the narrow widths: the reader's accessors mask a word address to w bits, so a segment at word 2^w (w = 8, 16, 32) is read
+    # back at word 0 - the range has to be refused by the memory of the width, not only by what the 64-bit segment field can hold
+    for side, fn_, rel_ in (('Writer', wa, W), ('Reader', im, R)):
+        tests_ = _refusals_about(fn_, {'segment_start', 'segment_length'})
+        missed = []
+        for ws in (8, 16, 32):
+            try:
+                got = any(bool(eval_int_expr(t, {'segment_start': 1 << ws, 'segment_length': 2, 'self.word_size': ws, 'self.memory_width': ws})) for t in tests_)
+            except AnalysisError:
+                got = False
+            if not got:
+                missed.append(ws)
+        rep.check(not missed, 'C06.RANGE-EXACT', f'{side}:segment-end at narrow widths', 'refused' if not missed else
+                  f'a segment starting at word 2^w is accepted at w = {missed}: Reader.get_word masks the word address with 2^w - 1, so its words are '
+                  f'read back as the words 0, 1, .. (a hand-built image at w=8 with segments [0,2) and [0x100,0x102) reads 0x100 as word 0)',
+                  f'{rel_}:{fn_.lineno}', expected='start + length bounded by the words a w-bit memory holds')
     # data words: either a test on min(data) / max(data), or a per-word predicate inside a generator / comprehension / loop
     ad = repo.func(W, 'Writer.add_data')
     word_tests: List[ast.expr] = []
